@@ -427,11 +427,24 @@ impl ScalarIndex for BitmapIndex {
                     Bound::Unbounded => Bound::Unbounded,
                 };
 
-                let keys: Vec<_> = self
-                    .index_map
-                    .range((range_start, range_end))
-                    .map(|(k, _v)| k.clone())
-                    .collect();
+                // A range like `x > 10 AND x < 5` selects nothing.  BTreeMap::range panics
+                // on such a range so we need to check for it first.
+                let empty_range = match (&range_start, &range_end) {
+                    (Bound::Included(lower), Bound::Included(upper)) => lower > upper,
+                    (Bound::Included(lower), Bound::Excluded(upper))
+                    | (Bound::Excluded(lower), Bound::Included(upper))
+                    | (Bound::Excluded(lower), Bound::Excluded(upper)) => lower >= upper,
+                    _ => false,
+                };
+
+                let keys: Vec<_> = if empty_range {
+                    Vec::new()
+                } else {
+                    self.index_map
+                        .range((range_start, range_end))
+                        .map(|(k, _v)| k.clone())
+                        .collect()
+                };
 
                 metrics.record_comparisons(keys.len());
 
